@@ -27,7 +27,11 @@ class Body(nn.Module):
     vs = []
     for j, v in enumerate(d['vars']):
       shape = tuple(v['slice_shape'])
-      vs.append(self.variable(COLOF[v['spec']], 'v%d' % j, lambda shape=shape, v=v: jnp.full(shape, v['init'], dtype=jnp.int64)))
+      if v.get('rand_init'):
+        # a key-dependent initialiser: initialising twice is visible
+        vs.append(self.variable(COLOF[v['spec']], 'v%d' % j, lambda shape=shape: jax.random.randint(self.make_rng('params'), shape, -3, 4).astype(jnp.int64)))
+      else:
+        vs.append(self.variable(COLOF[v['spec']], 'v%d' % j, lambda shape=shape, v=v: jnp.full(shape, v['init'], dtype=jnp.int64)))
 
     def ev(e, carry):
       k = e[0]
@@ -77,6 +81,49 @@ class Plain(nn.Module):
   @nn.compact
   def __call__(self, c, x):
     return Body(self.did, name='s')(c, x)
+
+
+class Chain(nn.Module):
+  """c -> a * c + w, one scalar parameter per layer (for remat_scan)"""
+  did: int = 0
+
+  @nn.compact
+  def __call__(self, c):
+    d = DESCS[self.did]
+    w = self.param('w', lambda k: jnp.asarray(d['winit'], dtype=jnp.int64))
+    return c * d['a'] + w
+
+
+class ChainTop(nn.Module):
+  did: int = 0
+
+  @nn.compact
+  def __call__(self, c):
+    d = DESCS[self.did]
+    return nn.remat_scan(Chain, lengths=tuple(d['lengths']))(self.did, name='s')(c)
+
+
+def remat_scan_case(d, did):
+  DESCS[did] = d
+  c0 = jnp.asarray(d['c0'], dtype=jnp.int64)
+  w = np.array(d['w'], dtype=np.int64)
+  out = {}
+
+  def ap():
+    y = ChainTop(did).apply({'params': {'s': {'w': jnp.asarray(w)}}}, c0)
+    return {'out': int(y)}
+
+  def loop():
+    c = c0
+    for wi in w.reshape(-1):
+      c = Chain(did).apply({'params': {'w': jnp.asarray(wi)}}, c)
+    return {'out': int(c)}
+
+  def init():
+    y, v = ChainTop(did).init_with_output(jax.random.key(0), c0)
+    return {'shape': list(np.shape(v['params']['s']['w'])), 'out': int(y)}
+  out['apply'], out['loop'], out['init'] = safe(ap), safe(loop), safe(init)
+  return out
 
 
 def stacked_vars(d):
@@ -167,7 +214,12 @@ def run_case(d, did):
 
   def impl_init():
     (c, (ys, keys)), variables = Top(did).init_with_output(rngs_of(d), c0, xs)
-    return {'ys': [int(z) for z in np.asarray(ys)], 'vals': enc_vars(flax.core.unfreeze(variables), d),
+    extra = {}
+    if d.get('readonly'):
+      # the output of init must be the loop over the variables init returns
+      (c2, (ys2, _)), _ = Top(did).apply(variables, c0, xs, rngs=rngs_of(d), mutable=True)
+      extra['init_consistent'] = bool(np.array_equal(np.asarray(ys), np.asarray(ys2)))
+    return {**extra, 'ys': [int(z) for z in np.asarray(ys)], 'vals': enc_vars(flax.core.unfreeze(variables), d),
             'shapes': {col: {k: list(np.shape(a)) for k, a in tree['s'].items()} for col, tree in flax.core.unfreeze(variables).items()}}
   out['init'] = safe(impl_init)
   return out
@@ -187,7 +239,7 @@ def main(payload):
   res = []
   for i, d in enumerate(payload['cases']):
     try:
-      res.append({'ok': run_case(d, i)})
+      res.append({'ok': remat_scan_case(d, i) if d['kind'] == 'remat_scan' else run_case(d, i)})
     except Exception as e:  # pylint: disable=broad-except
       import traceback
       res.append({'err': type(e).__name__, 'tb': traceback.format_exc()[-800:]})
